@@ -165,6 +165,9 @@ type run struct {
 	store   *faultStore
 	sawWire map[string]bool // senders whose frame was observed at "wire" (configuration wire=1)
 	nwire   int
+	deferE     bool // the E line of the schedule is written after the epilogue
+	silent     bool // epilogue: nothing is recorded any more
+	holdReconn bool // epilogue: the receive loop parks at "reconnecting" (between Disconnect and CreateConnection)
 	nearly  int  // channel sends tried before the owner listened (doEarly)
 	aborted bool // a direct oracle failed in a way that leaves nothing to schedule
 	lock    string          // actor holding the send lock
@@ -360,7 +363,7 @@ func (r *run) connect(idx, attempt int) bool {
 			return true
 		}
 		if point == "reconnecting" {
-			return true
+			return !r.holdReconn
 		}
 		return point == "prerecv" && strings.HasPrefix(actor, "c")
 	}
@@ -767,6 +770,9 @@ func (r *run) onArrival(actor string, ar csched.Arrival) []string {
 }
 
 func (r *run) record(label, obs string) {
+	if r.silent {
+		return
+	}
 	r.out.line("A", strconv.Itoa(r.idx), strconv.Itoa(r.nact), label, obs)
 	r.nact++
 }
@@ -793,6 +799,9 @@ func (r *run) clk(id int64) string {
 // note writes what the receive loop is about to work on, so that the supervisor can name the message
 // during which the process died.
 func (r *run) note(class string) {
+	if r.silent {
+		return
+	}
 	r.lastClass = class
 	r.out.line("P", strconv.Itoa(r.idx), class)
 }
@@ -1783,7 +1792,9 @@ func (r *run) finish() {
 	seq, salt, rk, hk := r.cl.VerifSnapshot()
 	sort.Ints(rk)
 	r.out.line("F", idx, fmt.Sprintf("seq=%d table=%d hints=%d salt=%s gen=%d q=%d", seq, len(rk), len(hk), r.showSalt(salt), r.conns, r.warnLen()))
-	r.out.line("E", idx, r.status)
+	if !r.deferE {
+		r.out.line("E", idx, r.status)
+	}
 }
 
 func (r *run) teardown() {
